@@ -1397,6 +1397,17 @@ func (e *enc) latch(b *ssa.BasicBlock, st *State, cond string, h *ssa.BasicBlock
 		}
 		e.oblige("inv-pres", fmt.Sprintf("%s:%s", tag, clauseKey(inv, i)), g, token.NoPos, inv.text)
 	}
+	if len(lc.steps) > 0 && li.hstate != nil {
+		senv := e.envFor(st, e.entry)
+		senv.prev = li.hstate
+		for i, sc := range lc.steps {
+			if g, ok := e.tryEvalBool(sc.expr, senv, "loop step"); ok {
+				e.oblige("inv-pres", fmt.Sprintf("%s:step:%s", tag, clauseKey(sc, i)), g, token.NoPos, sc.text)
+			} else if !e.firstPass {
+				panic("loop step clause refers to an unknown identifier: " + sc.text)
+			}
+		}
+	}
 	if lc.decreases != nil && li.variant != "" {
 		v := e.evalSpec(lc.decreases.expr, env)
 		e.oblige("variant", tag, fmt.Sprintf("(and (>= %s 0) (< %s %s))", li.variant, v.t, li.variant), token.NoPos, lc.decreases.text)
